@@ -80,6 +80,30 @@ paths:
         "201": {description: ok}
   /alpha:
     get: {responses: {"200": {description: ok}}}
+    post:
+      requestBody:
+        content:
+          text/csv: {schema: {type: string, format: binary}}
+          application/xml: {schema: {type: string, format: binary}}
+          application/octet-stream: {schema: {type: string, format: binary}}
+          text/plain: {schema: {type: string, format: binary}}
+      responses:
+        "200":
+          description: ok
+          content:
+            text/plain: {schema: {type: string, format: binary}}
+            application/pdf: {schema: {type: string, format: binary}}
+            image/png: {schema: {type: string, format: binary}}
+            application/zip: {schema: {type: string, format: binary}}
+        default:
+          description: other
+          content:
+            text/html: {schema: {type: string, format: binary}}
+            application/json: {schema: {$ref: '#/components/schemas/Pet'}}
+            text/plain: {schema: {type: string, format: binary}}
+    put:
+      requestBody: {$ref: '#/components/requestBodies/B5'}
+      responses: {"204": {description: ok}}
   /beta:
     get: {responses: {"200": {description: ok}}}
   /gamma/{g}:
@@ -115,6 +139,12 @@ components:
     B2: {content: {application/json: {schema: {$ref: '#/components/schemas/Cat'}}}}
     B3: {content: {application/octet-stream: {schema: {type: string, format: binary}}}}
     B4: {content: {application/json: {schema: {$ref: '#/components/schemas/Dog'}}}}
+    B5:
+      content:
+        text/tab-separated-values: {schema: {type: string, format: binary}}
+        application/x-ndjson: {schema: {type: string, format: binary}}
+        application/msgpack: {schema: {type: string, format: binary}}
+        application/cbor: {schema: {type: string, format: binary}}
   responses:
     NotFound: {description: not found}
     R2: {description: r2}
